@@ -93,7 +93,7 @@ def main(tier):
         runs = [["matrix", 8, 1], ["bfs", "unitary", 2, 7, 6000000], ["bfs", "unitary", 3, 5, 6000000], ["bfs", "unitary", 4, 4, 6000000], ["bfs", "unitary", 5, 2]]
         nmax = 3
     else:
-        runs = [["matrix", 6, 4], ["bfs", "unitary", 3, 3]]
+        runs = [["matrix", 7, 1], ["bfs", "unitary", 2, 5], ["bfs", "unitary", 3, 4], ["bfs", "unitary", 4, 3]]
         nmax = 3
     res = simlevel.run_all(runs)
     simlevel.report(ck, res, {"C01"})
